@@ -844,8 +844,10 @@ def check_checksum(pkt: bytes):
     return None
 
 
-async def _client_split(fmt: str, pkts):
-    """concatenate the packets, run the matching client's receive path on the stream, return what reached the decoder"""
+async def _client_split(fmt: str, pkts, cut=None):
+    """concatenate the packets, run the matching client's receive path on the stream, return what reached the decoder.
+    cut: None = the whole stream is available at once; n > 0 = the transport delivers n bytes at a time; a list = those
+    piece sizes in turn (cyclically)"""
     from nmea2000 import ioclient as IO
     stream = b"".join(pkts)
     got = []
@@ -861,25 +863,54 @@ async def _client_split(fmt: str, pkts):
         gw.decoder.decode_yacht_devices_string = lambda s: got.append(s.encode())
     try:
         gw.reader = asyncio.StreamReader()
-        gw.reader.feed_data(stream)
-        gw.reader.feed_eof()
-        for _ in range(len(pkts) + len(stream) // 100 + 2):
-            if fmt != "usb" and gw.reader.at_eof():
-                break
+        if cut is None:
+            gw.reader.feed_data(stream)
+            gw.reader.feed_eof()
+            for _ in range(len(pkts) + len(stream) // 100 + 2):
+                if fmt != "usb" and gw.reader.at_eof():
+                    break
+                try:
+                    await gw._receive_impl()
+                except Exception:  # noqa: BLE001
+                    break
+        else:
+            sizes = [cut] if isinstance(cut, int) else list(cut)
+
+            async def rx():
+                while True:
+                    try:
+                        await gw._receive_impl()
+                    except Exception:  # noqa: BLE001
+                        return
+            task = asyncio.ensure_future(rx())
+            pos, k = 0, 0
+            while pos < len(stream):
+                n = max(1, sizes[k % len(sizes)])
+                gw.reader.feed_data(stream[pos:pos + n])
+                pos, k = pos + n, k + 1
+                for _ in range(6):
+                    await asyncio.sleep(0)
+            gw.reader.feed_eof()
             try:
-                await gw._receive_impl()
+                await asyncio.wait_for(task, 5)
             except Exception:  # noqa: BLE001
-                break
+                task.cancel()
     finally:
         gw._process_queue_task.cancel()
     return got
 
 
-def check_split(fmt: str, pkts):
+def check_split(fmt: str, pkts, cut=None):
     if fmt == "ebyte" and any(p == b"Sorry,Limited" for p in pkts):
         return None
-    got = asyncio.run(_client_split(fmt, pkts))
+    got = asyncio.run(_client_split(fmt, pkts, cut))
     exp = [p.strip() for p in pkts] if fmt == "yd" else list(pkts)
+    if got != exp and cut is not None:
+        k = next((i for i, (a, b) in enumerate(zip(got, exp)) if a != b), min(len(got), len(exp)))
+        return {"key": f"split:{fmt}:segmented", "kind": "split", "fmt": fmt, "packets": [p.hex() for p in pkts], "cut": cut,
+                "what": f"{fmt}: with the transport delivering the stream in pieces of {cut} bytes the receive path cuts the "
+                        f"concatenation of {len(pkts)} encoder packets into {len(got)} blocks; block {k} is "
+                        f"{(got[k].hex() if k < len(got) else None)} instead of {(exp[k].hex() if k < len(exp) else None)}"}
     if got != exp:
         k = next((i for i, (a, b) in enumerate(zip(got, exp)) if a != b), min(len(got), len(exp)))
         return {"key": f"split:{fmt}", "kind": "split", "fmt": fmt, "packets": [p.hex() for p in pkts],
@@ -933,9 +964,9 @@ def _encode_desc(fmt: str, desc):
         return []
 
 
-def check_split_msgs(fmt: str, descs):
+def check_split_msgs(fmt: str, descs, cut=None):
     pkts = [p for d in descs for p in _encode_desc(fmt, d)]
-    w = check_split(fmt, pkts) if pkts else None
+    w = check_split(fmt, pkts, cut) if pkts else None
     if w:
         w.pop("packets", None)
         w["msgs"] = descs
@@ -1017,6 +1048,8 @@ def search(ctx):
     # split: concatenations of the packets of consecutive messages through the matching client's receive path
     for fmt in ("ebyte", "usb", "yd"):
         add(check_split_msgs(fmt, descs[:12]))
+        for cut in (1, 7, [5, 19, 13, 30], [rng.randint(1, 40) for _ in range(9)]):      # the transport splits the stream
+            add(check_split_msgs(fmt, descs[:6], cut))
         for _ in range(ctx.n(4, 30)):
             i = rng.randrange(len(descs))
             add(check_split_msgs(fmt, descs[i:i + rng.randint(1, 6)]))
@@ -1070,8 +1103,8 @@ def replay(ctx, data):
     elif w.get("kind") == "checksum":
         r = check_checksum_msg(w["msg"], w["index"]) if "msg" in w else check_checksum(bytes.fromhex(w["packet"]))
     elif w.get("kind") == "split":
-        r = (check_split_msgs(w["fmt"], w["msgs"]) if "msgs" in w
-             else check_split(w["fmt"], [bytes.fromhex(p) for p in w["packets"]]))
+        r = (check_split_msgs(w["fmt"], w["msgs"], w.get("cut")) if "msgs" in w
+             else check_split(w["fmt"], [bytes.fromhex(p) for p in w["packets"]], w.get("cut")))
     print("expected: packets of fixed size that round-trip and are split back by the receive path")
     print("observed:", r["what"] if r else "property holds on this input")
     return r is not None
